@@ -43,8 +43,10 @@ def make_plan(env, version, level, rho_mult, nspin, coef_order, nalpha=2, tag="P
 
         def _get_interpolation_coefficients(self, arg_g, i=-1, vbuf=None, dbuf=None):
             ng = arg_g.shape[0]
-            shape = (ng, self.nalpha) if self.coef_order == "gq" else (self.nalpha, ng)
-            p, dp = env.zeros(shape), env.zeros(shape)
+            # same buffer contract as the real routines: the results are views of vbuf / dbuf when those are given
+            # (np.ndarray(shape, buffer=buf)), fresh arrays otherwise
+            p = self.empty_coefs(ng, local=False, buf=vbuf) if vbuf is not None else env.zeros(self._get_coef_shape(ng, False))
+            dp = self.empty_coefs(ng, local=False, buf=dbuf) if dbuf is not None else env.zeros(self._get_coef_shape(ng, False))
             for q in range(self.nalpha):
                 f = leaf.setdefault((i, q), stubs.LeafFn(env, "%s_i%d_q%d" % (tag, i, q), 1))
                 for g in range(ng):
